@@ -56,6 +56,8 @@ func runParseBatch(c *Ctx, jobs []*SynJob, drv string, refs []*parseRef, judge j
 	}
 	var cases []*DCase
 	var live []*parseRef
+	lastFeed := map[string]*DFeed{}
+	second := map[int]bool{}
 	for _, ref := range refs {
 		if ref.job.Dropped != "" {
 			if strings.HasPrefix(ref.job.Dropped, "generated code does not compile") {
@@ -71,9 +73,16 @@ func runParseBatch(c *Ctx, jobs []*SynJob, drv string, refs []*parseRef, judge j
 			again := *feed
 			again.Fail = -1
 			cases = append(cases, &DCase{G: ref.job.Name, Op: "session", Items: []*DFeed{feed, &again}})
+		} else if prev := lastFeed[ref.job.Name]; prev != nil && len(cases)%4 == 1 {
+			// the parser object has a past: the previous input of this grammar (whatever it was -
+			// a sentence, a syntax error, a recovered error) is parsed first on the same object;
+			// only the second call is judged here
+			cases = append(cases, &DCase{G: ref.job.Name, Op: "session", Items: []*DFeed{prev, feed}})
+			second[len(cases)-1] = true
 		} else {
 			cases = append(cases, &DCase{G: ref.job.Name, Op: "parse", Feed: feed})
 		}
+		lastFeed[ref.job.Name] = feed
 		live = append(live, ref)
 	}
 	if len(cases) == 0 {
@@ -90,7 +99,12 @@ func runParseBatch(c *Ctx, jobs []*SynJob, drv string, refs []*parseRef, judge j
 		used[ref.job.Name] = true
 		var after *DPResult
 		if cases[i].Op == "session" && len(r.Ps) == 2 {
-			r.P, after = &r.Ps[0], &r.Ps[1]
+			if second[i] {
+				r.P = &r.Ps[1]
+				c.Add("parses_on_a_parser_object_with_a_past", 1)
+			} else {
+				r.P, after = &r.Ps[0], &r.Ps[1]
+			}
 		}
 		if r.Err != "" || r.P == nil {
 			c.Violation(&Witness{Kind: "parse", Grammar: ref.job.G, Flags: ref.job.Flags, Toks: ref.job.Names(ref.toks), FailAt: ref.fail, Note: "driver error: " + r.Err})
